@@ -360,7 +360,13 @@ func runHistory(h *history, st stats) *viol {
 			existed := model[id]
 			added, removed = added[:0], removed[:0]
 			var err error
-			if p := vf.Catch(func() { err = rt.Update(id, "addr-"+o.ID[:8]) }); p != nil {
+			// a peer that is seen again often comes back with ANOTHER address (new port, new IP): same id
+			addr := "addr-" + o.ID[:8]
+			if existed && n%2 == 1 {
+				addr = fmt.Sprintf("addr-%s-moved-%d", o.ID[:8], n)
+				st["update_existing_with_new_address"]++
+			}
+			if p := vf.Catch(func() { err = rt.Update(id, addr) }); p != nil {
 				return &viol{key: "panic:Update", what: fmt.Sprint(p), at: n}
 			}
 			grew := len(rt.Buckets) - nb
